@@ -84,3 +84,21 @@ PROPS["C12"] = dict(
         dict(test="TestC12LWWSet", quick=dict(checks=6000, shards=4, timeout=300), thorough=dict(checks=400000, shards=16, timeout=2400)),
     ],
 )
+
+PROPS["C01"] = dict(
+    pkg="c01", level="fault_enumeration",
+    technique="property-based testing with generated fault plans (rapid): run-time-built archetypes on the real Run loop, transparent fault-injecting resource wrappers, per-resource transaction models compared after every attempt",
+    level_text="Generated programs (1-6 labels x 1-8 reads/writes/indexed accesses) over generated mixes of 2-6 real resources, executed by the real "
+               "MPCalContext.Run; a generated fault plan makes each label fail up to 3 times at a drawn position (false await, resource refusing an "
+               "operation, resource failing after performing it, pre-commit failing after the inner pre-commit succeeded). After every attempt every "
+               "observable (locals, GetState, badger, files, published outputs) must equal the model; every value read must be the model's; at the end "
+               "all committed inputs are drained in order and one more read must find nothing.",
+    level_note="Faults are those expressible through the ArchetypeResource interface (refusals/time-outs), not process crashes. Resource kinds covered are "
+               "listed in evidence classes kind.*; SingleOutputChan is excluded (documents that it cannot abort).",
+    rule="program x resource mix x fault plan drawn by rapid; non-trivial = some attempt aborted after performing a write or consuming read on >=2 "
+         "different resource kinds and the label later committed; distinct by rendered program+plan.",
+    runs=[
+        dict(test="TestC01Memory", quick=dict(checks=4000, shards=8, timeout=300), thorough=dict(checks=400000, shards=16, timeout=3000)),
+        dict(test="TestC01Sockets", quick=dict(checks=160, shards=8, timeout=300), thorough=dict(checks=16000, shards=16, timeout=3000)),
+    ],
+)
